@@ -12,15 +12,22 @@ pub struct Sink {
     pub idx: usize,
     pub evals: [u64; N_RULES],
     pub viol: Vec<Violation>,
+    /// the main instance was fed something no reference model can follow (a message object that
+    /// contradicts itself): nothing is judged until the next reset or restore puts every instance
+    /// and every observer back in step
+    pub muted: bool,
 }
 
 impl Sink {
     pub fn new() -> Sink {
-        Sink { idx: 0, evals: [0; N_RULES], viol: Vec::new() }
+        Sink { idx: 0, evals: [0; N_RULES], viol: Vec::new(), muted: false }
     }
     /// Rule `r` was applicable here; `ok` says whether it held.
     #[inline]
     pub fn check(&mut self, r: R, ok: bool, detail: impl FnOnce() -> String) {
+        if self.muted {
+            return;
+        }
         self.evals[r as usize] += 1;
         if !ok {
             self.viol.push(Violation { idx: self.idx, rule: r, detail: detail() });
